@@ -96,6 +96,19 @@ pub fn scenario_cases(seed: u64, k: usize) -> Vec<Case> {
             let mut input = input;
             input["plans"] = json!(plans.iter().map(|p| p.iter().map(|x| json!([x.0, fjson(x.1)])).collect::<Vec<_>>()).collect::<Vec<_>>());
             tags.push(format!("cert:{}", if run.hooked { "dispatch_path" } else { "search" }));
+            // does some train leave its shortest path (an alternate edge of its estimated-time network with a
+            // running time on the fake node that opens the branch)?
+            let mut diverted = 0usize;
+            for (i, c) in certs.iter().enumerate() {
+                if let Some((_, w)) = c {
+                    let est = &run.ests[i];
+                    let mut prev = 0usize;
+                    let mut d = false;
+                    for (j, _) in w { if *j != 0 && prev < est.len() && est[prev].idx_next_alt as usize == *j { d = true; } prev = *j; }
+                    if d { diverted += 1; }
+                }
+            }
+            tags.push(format!("trains_diverted_onto_alternate_branch:{}", diverted.min(3)));
             vec![Case { id, kind: "disp_result".into(), coq, outcome: Outcome::Ok(o), tags, input, oracle_fail: fails, known: vec![], in_domain: true }]
         }
     }
